@@ -31,7 +31,7 @@ Lemma produce_header :
     o_magic o = true.
 Proof.
   intros ngc p T K V Hv.
-  destruct p as [| | | | | | | | | |c|c|c|c|c| | | | |i|i]; try destruct c; try destruct i;
+  destruct p as [| | | | | | | | | |c|c|c|c|c| | | | |i|i|]; try destruct c; try destruct i;
     destruct T; try discriminate Hv; vm_compute; repeat split; reflexivity.
 Qed.
 
@@ -42,7 +42,7 @@ Lemma registered_is_heap :
     o_reg (m_produce (cfg_src ngc) p T K V) <> RNone -> spec_class p = AHeap.
 Proof.
   intros ngc p T K V Hv.
-  destruct p as [| | | | | | | | | |c|c|c|c|c| | | | |i|i]; try destruct c; try destruct i; try reflexivity;
+  destruct p as [| | | | | | | | | |c|c|c|c|c| | | | |i|i|]; try destruct c; try destruct i; try reflexivity;
     destruct T; try discriminate Hv; vm_compute; intro H; try reflexivity; exfalso; apply H; reflexivity.
 Qed.
 
@@ -102,7 +102,7 @@ Lemma produce_inv :
     invb (spec_class p) (kind_of (spec_type p T K V)) (m_produce (cfg_src ngc) p T K V) = true.
 Proof.
   intros ngc p T K V Hv Hh.
-  destruct p as [| | | | | | | | | |c|c|c|c|c| | | | |i|i]; try (exfalso; apply Hh; reflexivity);
+  destruct p as [| | | | | | | | | |c|c|c|c|c| | | | |i|i|]; try (exfalso; apply Hh; reflexivity);
     try destruct c; try destruct i; try (exfalso; apply Hh; reflexivity);
     first [ solve [destruct T; try discriminate Hv; vm_compute; reflexivity]
           | solve [destruct K; try discriminate Hv; vm_compute; reflexivity]
